@@ -169,7 +169,12 @@ class Ctx:
             "lean_build_s": round(self.lean.build_s, 1) if self.lean else None,
         }
         if self.exhaustive is not None:
-            cov["exhaustive"] = self.exhaustive
+            # the schema wants a boolean; a builder may have recorded WHAT was enumerated exhaustively
+            if isinstance(self.exhaustive, bool):
+                cov["exhaustive"] = self.exhaustive
+            else:
+                cov["exhaustive"] = True
+                cov["exhaustive_over"] = self.exhaustive
         cov.update(self.notes)
         ev = {"property_id": self.prop, "tier": self.tier, "seed": self.seed, "level": "proof", "coverage": cov,
               "assumptions": self.assumptions, "wall_s": round(time.time() - self.t0, 2), "violations": nviol}
